@@ -285,10 +285,7 @@ func render(sb *strings.Builder, v any, depth int) {
 			render(sb, x.V, depth+1)
 		}
 	case []any:
-		if x == nil {
-			sb.WriteString("[]nil")
-			return
-		}
+		// nil and empty slices are not distinguished by any property (Equal treats them alike)
 		sb.WriteString("[")
 		for i, e := range x {
 			if i > 0 {
